@@ -220,58 +220,83 @@ theorem C17_file (f : SchemaFile) (wf : ∀ s ∈ f.schemas, s.wf) (acc : Cxx.ac
         rw [← u1, ← u2]
         simpa using hx
 
-/-! ## a self-contained schema is printed in one pass -/
+/-! ## the pass decision of multpass.c: one pass, suffix 0, every type decided, termination -/
 
 /-- For **every** set of types and entities of a schema that refers to nothing outside itself, every iteration order of
     its symbol table and any number of `checkTypes`/`checkEnts` sweeps: nothing is marked CANTPROCESS, the schema is not set
     back to UNPROCESSED, and `SCHEMAprint` is called once with suffix 0 — so the per-schema files are `Sdai<S>.h/.cc/…`,
     the names the scanner lists.  Stated for the last case of `ENUMcanBeProcessed` found in the tree (`enumLastCase`,
     regenerated): the proof goes through only for `inSchemaOrProcessed`. -/
-theorem C17_self_contained_schema_one_pass (os order : List Pass.Obj) (n : Nat) :
+theorem C17_self_contained_schema_one_pass (os order : List Pass.Obj) (hnf : ∀ n, Pass.isForeign os n = false) (n : Nat) :
     Pass.suffixes (Pass.sweeps Generated.CxxPass.enumLastCase os order n Pass.initial) = [0] := by
   have hc : Generated.CxxPass.enumLastCase = .inSchemaOrProcessed := by decide
   rw [hc]
   have h : Pass.Good Pass.initial := ⟨fun k => by simp [Pass.initial], rfl⟩
-  have := (Pass.sweeps_good os order n _ h).2
+  have hf : Pass.FDone os Pass.initial.marks := fun n hn => by rw [hnf n] at hn; exact absurd hn (by decide)
+  have := (Pass.sweeps_good os order (fun o _ => hnf o.name) n _ h hf).2
   simp [Pass.suffixes, this]
+
+/-- **Schemas with interface clauses.**  The same holds for a schema that takes objects from other schemas (USE / REFERENCE:
+    foreign enumerations and selects as attribute types or select items, foreign originals of renamed types, foreign
+    supertypes) provided every such foreign object has already been PROCESSED when the schema is looked at
+    (`Pass.Ready`: own objects have pairwise different names, no mark is CANTPROCESS, foreign objects PROCESSED): at every
+    iteration of the sweep loop the schema is still printable in ONE pass with suffix 0 — exactly the names the scanner
+    lists.  (The negation is the recorded finding `multipass-suffix`, witness below.) -/
+theorem C17_schema_after_its_suppliers_one_pass (os order : List Pass.Obj) (s0 : Pass.St) (hr : Pass.Ready os order s0) (k : Nat) :
+    Pass.suffixes (Pass.runFrom Generated.CxxPass.sweepLoop Generated.CxxPass.enumLastCase os order s0 k).st = [0] := by
+  have hc : Generated.CxxPass.enumLastCase = .inSchemaOrProcessed := by decide
+  have hl : Generated.CxxPass.sweepLoop = .untilSettled ∨ Generated.CxxPass.sweepLoop = .untilSettledOrStalled := by decide
+  rw [hc]
+  simp [Pass.suffixes, (Pass.run_inv _ hl os order s0 hr k).1.2]
+
+/-- A supplier that has NOT been processed yet makes the schema wait: an entity with an attribute of a foreign enumeration
+    that is still NOTKNOWN is marked CANTPROCESS, the schema is set back to UNPROCESSED and printed with the suffixes
+    `_1`, `_2` — names the scanner does not list.  With the enumeration PROCESSED the suffix is 0. -/
+theorem C17_unprocessed_supplier_witness :
+    let os : List Pass.Obj := [{ name := "b.eb", items := ["a.ta"] }, { name := "a.ta", isEnum := true, foreign := true }]
+    let own : List Pass.Obj := [{ name := "b.eb", items := ["a.ta"] }]
+    let waiting : Pass.St := { marks := fun _ => .notknown, schemaUnprocessed := false }
+    let done : Pass.St := { marks := fun n => if n = "a.ta" then .processed else .notknown, schemaUnprocessed := false }
+    Pass.suffixes (Pass.runFrom .untilSettled .inSchemaOrProcessed os own waiting 1).st = [1, 2] ∧
+    Pass.suffixes (Pass.runFrom .untilSettled .inSchemaOrProcessed os own done 1).st = [0] := by
+  decide
 
 /-- When the sweep loop of `checkTypes` has been left (its shape is regenerated: `sweepLoop`), **every** type of the schema
     has been decided and none is CANTPROCESS — all of them are CANPROCESS on entry to `SCOPEPrint`, which is what the
     file-set theorems above assume.  Holds for `while( unknowncnt > 0 )` because `unknowncnt` is exactly the number of
     objects a sweep leaves NOTKNOWN (`sweep_from_zero`), and for the stall exit because it marks what is left; a loop that
     may also stop after a bounded number of sweeps does not have this property (witness below). -/
-theorem C17_loop_exit_means_all_types_decided (os order : List Pass.Obj) (hnd : (order.map (·.name)).Nodup) (k : Nat)
-    (hexit : (Pass.run Generated.CxxPass.sweepLoop Generated.CxxPass.enumLastCase os order k).exited = true) :
-    ∀ o ∈ order, (Pass.run Generated.CxxPass.sweepLoop Generated.CxxPass.enumLastCase os order k).st.marks o.name = .canprocess ∨
-                 (Pass.run Generated.CxxPass.sweepLoop Generated.CxxPass.enumLastCase os order k).st.marks o.name = .processed := by
+theorem C17_loop_exit_means_all_types_decided (os order : List Pass.Obj) (s0 : Pass.St) (hr : Pass.Ready os order s0) (k : Nat)
+    (hexit : (Pass.runFrom Generated.CxxPass.sweepLoop Generated.CxxPass.enumLastCase os order s0 k).exited = true) :
+    ∀ o ∈ order, (Pass.runFrom Generated.CxxPass.sweepLoop Generated.CxxPass.enumLastCase os order s0 k).st.marks o.name = .canprocess ∨
+                 (Pass.runFrom Generated.CxxPass.sweepLoop Generated.CxxPass.enumLastCase os order s0 k).st.marks o.name = .processed := by
   have hc : Generated.CxxPass.enumLastCase = .inSchemaOrProcessed := by decide
   have hl : Generated.CxxPass.sweepLoop = .untilSettled ∨ Generated.CxxPass.sweepLoop = .untilSettledOrStalled := by decide
   rw [hc] at hexit ⊢
-  have inv := Pass.run_inv _ hl os order hnd k
+  have inv := Pass.run_inv _ hl os order s0 hr k
   intro o ho
-  have h1 := inv.2 hexit o ho
+  have h1 := inv.2.2 hexit o ho
   have h2 := inv.1.1 o.name
-  cases hm : (Pass.run Generated.CxxPass.sweepLoop .inSchemaOrProcessed os order k).st.marks o.name with
+  cases hm : (Pass.runFrom Generated.CxxPass.sweepLoop .inSchemaOrProcessed os order s0 k).st.marks o.name with
   | notknown => exact absurd hm h1
   | cantprocess => exact absurd hm h2
   | canprocess => exact Or.inl rfl
   | processed => exact Or.inr rfl
 
-/-- … and the schema is printed once with suffix 0, at whatever iteration the loop is left. -/
-theorem C17_self_contained_schema_one_pass_loop (os order : List Pass.Obj) (hnd : (order.map (·.name)).Nodup) (k : Nat) :
-    Pass.suffixes (Pass.run Generated.CxxPass.sweepLoop Generated.CxxPass.enumLastCase os order k).st = [0] := by
-  have hc : Generated.CxxPass.enumLastCase = .inSchemaOrProcessed := by decide
-  have hl : Generated.CxxPass.sweepLoop = .untilSettled ∨ Generated.CxxPass.sweepLoop = .untilSettledOrStalled := by decide
-  rw [hc]
-  simp [Pass.suffixes, (Pass.run_inv _ hl os order hnd k).1.2]
+/-- … in particular for a self-contained schema started with everything NOTKNOWN. -/
+theorem C17_self_contained_schema_one_pass_loop (os order : List Pass.Obj) (hnd : (order.map (·.name)).Nodup)
+    (hnf : ∀ n, Pass.isForeign os n = false) (k : Nat) :
+    Pass.suffixes (Pass.run Generated.CxxPass.sweepLoop Generated.CxxPass.enumLastCase os order k).st = [0] :=
+  C17_schema_after_its_suppliers_one_pass os order Pass.initial (Pass.ready_initial os order hnd hnf) k
 
 /-- **Termination.**  The loop that additionally leaves when a sweep ends with the same positive `unknowncnt` as the one
     before (`SweepLoop.untilSettledOrStalled`, fix C17-1) has been left after at most `n + 2` iterations for EVERY schema
-    with `n` types — `lastunknowncnt` is the number of NOTKNOWN types and strictly decreases while the loop runs
-    (`run_stalled_progress`).  The plain `while( unknowncnt > 0 )` loop has no such bound: see the next witness. -/
-theorem C17_sweep_loop_terminates (os order : List Pass.Obj) (hnd : (order.map (·.name)).Nodup) :
-    (Pass.run .untilSettledOrStalled .inSchemaOrProcessed os order (order.length + 2)).exited = true :=
-  Pass.run_stalled_terminates os order hnd
+    with `n` types (with or without processed suppliers) — `lastunknowncnt` is the number of NOTKNOWN types and strictly
+    decreases while the loop runs (`run_stalled_progress`).  The plain `while( unknowncnt > 0 )` loop has no such bound:
+    see the select-cycle witness. -/
+theorem C17_sweep_loop_terminates (os order : List Pass.Obj) (s0 : Pass.St) (hr : Pass.Ready os order s0) :
+    (Pass.runFrom .untilSettledOrStalled .inSchemaOrProcessed os order s0 (order.length + 2)).exited = true :=
+  Pass.run_stalled_terminates os order s0 hr
 
 /-- A loop that gives up after a fixed number of sweeps leaves types undecided: a chain of nested selects visited
     outermost first needs one sweep per link (here 3 selects, bound 1: the loop is left with two selects still NOTKNOWN,
